@@ -242,9 +242,8 @@ def CmpOp.compare (c : CmpOp) (lhs rhs : Int) : Bool :=
   | .eq => decide (lhs = rhs)
   | .ne => decide (lhs ≠ rhs)
 
-/-- `len(nodes) - 1 + 2`: commas between the n elements and the two brackets (Go int arithmetic,
-    so an empty container counts 1) -/
-def lenContainer (n : Nat) : Int := (n : Int) - 1 + 2
+/-- commas between the n elements (none for an empty container) and the two brackets -/
+def lenContainer (n : Nat) : Int := (if n > 0 then (n : Int) - 1 else 0) + 2
 
 mutual
   /-- `getNodeBytesSize` (nested strings and keys are assumed to need no JSON escaping) -/
